@@ -1095,11 +1095,13 @@ func run(c Sx) Result {
 		}
 		w.be.fm.WaitIdle()
 		if w.be.fm.VerifDisabled() {
-			// Known robustness problem (reported to the lead, not a C40 violation: queries fall
-			// back to the unindexed search): after a reorg the head renderer may pick a cached
-			// render snapshot below indexedRange.blocks.First() and treats errUnindexedRange as
-			// fatal.  The queries above were answered in that state; restart the indexer on the
-			// same DB (no snapshots) so that the following stages run on a live index again.
+			// The indexer must never disable itself on a healthy database ("served through the log
+			// index" presupposes a live index).  Fixed defect: after a reorg the head renderer
+			// picked a cached render snapshot below indexedRange.blocks.First() and treated
+			// errUnindexedRange as fatal.  The queries above were answered in that state (by the
+			// unindexed fallback); restart the indexer on the same DB so that the following
+			// stages still run on a live index.
+			fail("stage %d: the indexer disabled itself (log index head rendering failed on a healthy database)", si)
 			tag["disabled-restart"] = true
 			w.be.fm.Stop()
 			fm, err := filtermaps.NewFilterMaps(w.db, view, st.cutoff, 0, gp, filtermaps.Config{History: st.history, HashScheme: true})
